@@ -69,7 +69,7 @@ func TestSubRange(t *testing.T) {
 			}
 			subSpan = &struct{ Start, Len int64 }{pre, nBits}
 			tr := treegen.Build(top)
-			checkGapTree(tr, buf, res, true)
+			checkGapTree(tr, buf, res, !force && top.Err == nil)
 			c.Label("src:subrange")
 			if pre%8 != 0 {
 				c.Label("subrange-start-unaligned")
